@@ -32,7 +32,10 @@
                                                         calls, OnSession's own writer calls, the
                                                         server's own writer calls
      entry   = (n0 x<name> x<value>) header set | (n1 x<bytes> verdict) Write
-             | (n2 n<e>) Flush and the writer's outcome | (n3 n<code>) WriteHeader *)
+             | (n2 n<e>) Flush and the writer's outcome | (n3 n<code>) WriteHeader
+     every per-call result of a session has a third element (n<depth> ...): for each Write / Flush entry of the
+     call, in order, WHICH writer object the call was made on - its depth in the Unwrap chain of the shape,
+     0 = the writer handed to Upgrade / ServeHTTP *)
 From GoSse Require Import Base Lines Fields Message Session.
 From GoSse.Gen Require Import Params.
 
@@ -97,7 +100,17 @@ Definition enc_wcall (c : wcall) : val :=
   | LFlush e => VL [VN 2; VN e]
   | LWriteHeader c => VL [VN 3; VN c]
   end.
-Definition enc_cres (r : cres) : val := VL [VN (fst r); VL (map enc_wcall (snd r))].
+(* the writer object the session talks to, session.go:132-145: the loop tests the writer at hand for FlushError, then
+   for Flush, and only when it has neither goes on to what Unwrap() returns - the number of Unwrap steps taken *)
+Fixpoint rw_depth (w : shape) : nat :=
+  match w with
+  | Shape fe fl u =>
+      if fe then O else if fl then O
+      else match u with Some w' => S (rw_depth w') | None => O end
+  end.
+(* every Write / Flush of a call goes to that one object (Session.Res) *)
+Definition enc_cres (d : nat) (r : cres) : val :=
+  VL [VN (fst r); VL (map enc_wcall (snd r)); VL (map (fun _ => vnat d) (filter is_op (snd r)))].
 Definition vpanic_s : val := VB [112; 97; 110; 105; 99].
 
 Definition run_session (i : val) : val :=
@@ -111,7 +124,7 @@ Definition run_session (i : val) : val :=
       | None => VL [VN 1]
       | Some (k, _) =>
           let '(rs, _, ok) := run_calls (mksess (match k with RWFlushError => true | RWFlusher => false end) false script) calls in
-          VL (VN 0 :: map enc_cres rs ++ (if ok then [] else [vpanic_s]))
+          VL (VN 0 :: map (enc_cres (rw_depth w)) rs ++ (if ok then [] else [vpanic_s]))
       end
   | 2%N =>
       (* a real net/http server and client, nothing fails: the client sees the implicit 200,
@@ -133,7 +146,7 @@ Definition run_session (i : val) : val :=
       (* OnSession's own header assignment (it runs only when the request was upgraded) *)
       let pre := match upgrade w h with Some _ => ons_preset_log (nth_val 3 i) | None => [] end in
       VL [vopt (fun s : list bytes * field => VL [VL (map VB (fst s)); vopt VB (snd s)]) (sv_sub r);
-          VL (map enc_cres (sv_results r) ++ (if sv_ok r then [] else [vpanic_s]));
+          VL (map (enc_cres (rw_depth w)) (sv_results r) ++ (if sv_ok r then [] else [vpanic_s]));
           VL (map enc_wcall (pre ++ sv_user r));
           VL (map enc_wcall (sv_server r))]
   end.
@@ -168,6 +181,24 @@ Definition field_eqb (a b : field) : bool :=
   | _, _ => false
   end.
 
+(* "The body [written to the response writer] is exactly the concatenation of the sent messages' encodings, Flush pushes
+   everything sent so far": the response writer is the one handed to Upgrade / ServeHTTP.  Of "all ResponseWriter shapes
+   (Flusher, FlushError, wrapped via Unwrap, none)" a layer that cannot flush is looked through; a layer that CAN flush -
+   with or without reporting - is the writer: what the session writes and flushes must arrive AT it, not at something it
+   wraps (which it may feed through a buffer, a compressor, a counter of its own).  So every Write / Flush of every call
+   is made on the outermost layer of the chain that can flush - on the given writer itself whenever that one can flush -
+   and each Write / Flush entry has its layer reported. *)
+Fixpoint outermost_flusher (c : list (bool * bool)) : nat :=
+  match c with
+  | (fe, fl) :: r => if fe || fl then O else S (outermost_flusher r)
+  | [] => O
+  end.
+Definition layers_ok (w : shape) (rs : list val) : bool :=
+  let d := outermost_flusher (chain w) in
+  forallb (fun r => let ds := as_l (nth_val 2 r) in
+                    Nat.eqb (length ds) (nops (snd (dec_cres r))) &&
+                    forallb (fun v => Nat.eqb (as_nat v) d) ds) rs.
+
 Definition holds_session (i o : val) : bool :=
   match as_n (nth_val 0 i) with
   | 0%N =>
@@ -176,7 +207,7 @@ Definition holds_session (i o : val) : bool :=
       let calls := map (dec_call pool) (as_l (nth_val 3 i)) in
       if can_flush w then
         match as_l o with
-        | VN 0%N :: rs => session_ok calls (map dec_cres rs) && headers_literal (map dec_cres rs)
+        | VN 0%N :: rs => session_ok calls (map dec_cres rs) && headers_literal (map dec_cres rs) && layers_ok w rs
         | _ => false
         end
       else true (* Upgrade on a writer that cannot flush: the property speaks about ServeHTTP only *)
@@ -215,6 +246,7 @@ Definition holds_session (i o : val) : bool :=
               list_eqb bytes_eqb topics
                        (expected_topics ons) &&
               session_ok (firstn (length rs) calls) rs && headers_literal rs &&
+              layers_ok w (as_l (nth_val 1 o)) &&
               (* the provider refused before anything was sent: the answer is 500 *)
               match perr with
               | Some _ => if sent_something (full_log rs) then true else has_write_header 500 server
